@@ -76,6 +76,11 @@ def run(ctx):
     sp = ctx.path("storeblocks.ndjson")
     vlib.run_bin("fault_driver", ["storeblocks", "--out", sp], timeout=600)
     ev += vlib.read_ndjson(sp)
+    # a commit that wrote a delete file fails in the meta.json replacement; after rollback / re-open the same
+    # transaction is issued again (same opstamps, same delete-file name): it must succeed (F45)
+    rp = ctx.path("reuse.ndjson")
+    vlib.run_bin("fault_driver", ["reuse", "--out", rp], timeout=120)
+    ev += vlib.read_ndjson(rp)
     pairs = [(a, r) for a, r in zip(api_runs(ev), vlib.split_runs(ev)) if any(e["ev"] != "summary" for e in a)]
     runs = [a for a, _ in pairs]
     raws = [r for _, r in pairs]     # every storage operation and hook event of the run: kept next to a rejected run
